@@ -1,7 +1,7 @@
 # C12 — layer resolver: held layers stay usable, released layers are reclaimed
 PROPS["C12"] = dict(
     props_file="Properties/C12.v",
-    harnesses=[dict(cmd="resolver", mod="root", model="Model.Resolver", quick=260, thorough=12000, shard=24, coq_jobs=12,
+    harnesses=[dict(cmd="resolver", mod="root", model="Model.Resolver", quick=200, thorough=12000, shard=24, coq_jobs=12,
                     require=["op.start", "op.step", "op.step.fail", "op.done", "op.close", "op.release.again", "op.expl", "op.expb",
                              "op.use.held", "op.refresh", "op.wake", "pause.1", "pause.3", "pause.4", "result.blocked", "result.err",
                              "result.ret.fresh", "result.ret.shared", "result.use.closed", "result.use.released-open"])],
